@@ -7,8 +7,8 @@
 // harness/props/c14/findings/ (format of $VERIF_LASTFAIL; run with
 // VERIF_REPLAY=<file> go test -tags "badger filelog verif" -modfile /verif/build/repo/verif.mod ./props/c14 -run 'TestReplay$' -v).
 // Every replay was executed and fails with the listed signature.  The generator steers around a finding when one of its
-// signatures is listed in $VERIF_KNOWN_SIGS; with the three signatures marked (*) listed, 8 seeds x 200 cases and
-// 8 seeds x 600 cases pass, and each of the eight breaking changes tried (see the end of this file) is still caught.
+// signatures is listed in $VERIF_KNOWN_SIGS; with the three signatures marked (*) listed, 8 seeds x 200, 8 seeds x 600 and 16 seeds x 300 cases pass (11200 cases),
+// and each of the eight breaking changes tried (see the end of this file) is still caught.
 //
 // 1. Blocks with a negative odd coordinate: down-sampling panics or files the block under the wrong octant.
 //
@@ -39,7 +39,8 @@
 //
 //	Steering when known (case flag avoid_neg_odd): writes only touch blocks whose coordinate is, on every axis and at every
 //	level below MaxDownresLevel, non-negative or even; negative even coordinates (and reads at negative offsets) stay in
-//	the search.  Listing any one of the negative-coords signatures switches the steering on.
+//	the search.  Listing any one of the negative-coords signatures switches the steering on.  A failure met at negative
+//	coordinates while steering is on is not this finding's shape and carries the suffix /negative-coords-even-only.
 //
 // 2. GET raw of exactly one block that is not stored panics.
 //
